@@ -343,7 +343,13 @@ def run(ctx):
         for st_call in starts:
             # in the sync engine start() appears twice on disjoint paths (blocking / thread)
             pass
-        idok = any("explicit_id" in norm(a.value) and "uuid" in norm(a.value) for a in assignments_to(sp, "actor_id") if hasattr(a, "value"))
+        id_asg = [a for a in assignments_to(sp, "actor_id") if getattr(a, "value", None) is not None]
+        idok = any("explicit_id" in norm(a.value) and "uuid" in norm(a.value) for a in id_asg)
+        if not idok:
+            # the same choice written as if / else: the explicit id where one is given, a generated one only where none is
+            expl = [a for a in id_asg if "explicit_id" in norm(a.value) and any("explicit_id" in norm(g_) and pol for g_, pol in guards_at(sp, a))]
+            gen = [a for a in id_asg if "uuid" in norm(a.value) and any("explicit_id" in norm(g_) and not pol for g_, pol in guards_at(sp, a))]
+            idok = bool(expl) and bool(gen)
         c.ob("R7", idok, sp, "id-scheme", "child id is '<parent>:<explicit id>' or '<parent>:<key>:<uuid>'" if idok else
              "the child id scheme no longer distinguishes explicit ids from generated ones", sp.node)
 
